@@ -661,3 +661,24 @@ PROPS["C16"]["level_note"] = PROPS["C16"]["level_note"].replace("Correlation ids
 # C02 / C20 also rest on the lat suite (deliveries through the router under slow clean-ups; shutdown with requests in flight)
 PROPS["C02"]["suites"]["lat"] = dict(LAT_SUITE, oracle_tags=["C02"])
 PROPS["C20"]["suites"]["lat"] = dict(LAT_SUITE, oracle_tags=["C20"])
+
+
+# C01 / C02 / C04 under interleaving: readers (BROADCAST, MEMBERS) as a product with the writers' micro-step model (Model/MicroB.lean)
+READER_THMS = ["Narwhal.MicroB.C01_micro_snapshot_is_a_moment_of_the_request", "Narwhal.MicroB.C02_micro_member_throughout_is_reached",
+               "Narwhal.MicroB.reader_refused_on_removed_object", "Narwhal.MicroB.reader_waits_for_writer",
+               "Narwhal.MicroB.readers_do_not_interfere", "Narwhal.MicroB.readers_table_ok"]
+for _p in ("C01", "C02", "C04"):
+    PROPS[_p]["theorems"] = list(PROPS[_p]["theorems"]) + ["Narwhal.Theorems.C01Micro"]
+    PROPS[_p]["audit_files"] = list(PROPS[_p].get("audit_files", [])) + ["Narwhal/Model/MicroB.lean", "Narwhal/Model/Micro.lean"]
+    PROPS[_p]["expect_theorems"] = list(PROPS[_p]["expect_theorems"]) + READER_THMS
+    PROPS[_p]["level_text"] += (
+        " Interleavings: BROADCAST and MEMBERS are modelled as readers running between the suspension points of the membership writers "
+        "(Model/MicroB.lean, a product with Model/Micro.lean). Proved for every schedule: the member list such a request obtains is the "
+        "channel's current list at one moment of its own processing, the requester is in it, no writer is suspended inside the channel at "
+        "that moment (so no recipient is a tentative member whose JOIN can still be rolled back, and a member throughout the request is "
+        "reached); a reader that waited on a channel object which has meanwhile left the map is refused; readers never change the "
+        "membership state. That both requests read under the channel's lock in one segment, and that the broadcast target list is "
+        "recomputed at every member insertion and removal, is read from the source on every run (table obligation `readers_table_ok`).")
+    PROPS[_p]["assumptions"] = list(PROPS[_p].get("assumptions", [])) + [
+        "reader/writer micro-step model: a segment between two suspension points is atomic; async-lock's RwLock grants a read lock only "
+        "while no writer holds it (trusted)"]
